@@ -163,8 +163,13 @@ def mon (m : MSt) (op : List String) (exts : List (List String)) (obs : Option S
     let toks := o.splitOn " "
     let num (k : String) := ((kv toks k).getD "0").toNat?.getD 0
     let fails :=
-      (if num "dbl" > 0 then [mkFail "C27:concurrent-double-apply" s!"{num "dbl"} contents written once were notified more than once to a listener ({o})"] else []) ++
-      (if num "lost" > 0 then [mkFail "C27:concurrent-lost-update" s!"{num "lost"} rounds ended (all triggers returned, the last one fired after the last write) with a running config that is not the content on disk ({o})"] else []) ++
+      -- mode 0: all triggers read the same content (no rewrite between their reads).  The current code
+      -- (compare-and-assign in one critical section) excludes a second apply there: not a listed finding.
+      -- mode 1: a rewrite happens between the triggers' reads (stale-snapshot overlap).
+      (if num "dbl" > 0 then [mkFail (if num "mode" == 0 then "C27:concurrent-same-snapshot-applied-twice" else "C27:concurrent-double-apply")
+        s!"{num "dbl"} contents written once were notified more than once to a listener ({o})"] else []) ++
+      (if num "lost" > 0 then [mkFail (if num "mode" == 0 then "C27:concurrent-same-snapshot-not-applied" else "C27:concurrent-lost-update")
+        s!"{num "lost"} rounds ended (all triggers returned, the last one fired after the last write) with a running config that is not the content on disk ({o})"] else []) ++
       (if num "rej" > 0 then [mkFail "C27:rejected-content-applied" s!"{num "rej"} rounds changed the running config although startup rejects the files ({o})"] else []) ++
       (if num "miss" > 0 then [mkFail "C27:concurrent-missed-notification" s!"{num "miss"} applied contents were not notified to some listener ({o})"] else [])
     match exts.find? (fun e => e.head? == some "final") with
